@@ -63,9 +63,10 @@ def gen_solver_consts() -> str:
         raise T.TranslateError("perform_compile: expected exactly one try statement")
     tb = tries[0].body
     kinds = [type(n).__name__ for n in tb]
-    if kinds != ["For", "AnnAssign", "While", "For"]:
+    if kinds not in (["For", "AnnAssign", "While", "For"], ["For", "Assign", "While", "For"]):
         raise T.TranslateError(f"perform_compile: the try body is not root loop / retried / re-solve loop / final check: {kinds}")
-    if ast.unparse(tb[1].target) != "retried" or ast.unparse(tb[1].value) != "set()":
+    target = tb[1].target if isinstance(tb[1], ast.AnnAssign) else (tb[1].targets[0] if len(tb[1].targets) == 1 else None)
+    if target is None or ast.unparse(target) != "retried" or ast.unparse(tb[1].value) != "set()":
         raise T.TranslateError("perform_compile: `retried` is not initialised with set()")
     wl = tb[2]
     want_pending = "pending = [node for node in sorted(results.visit_nodes(roots)) if node.metadata is None and node not in retried]"
